@@ -213,7 +213,7 @@ class Refs(Suite):
     name = "refs"
     go_cmd = "c36"
     coq_imports = "From GoGit Require Import Model.RefSpec Model.RevList Model.PushRules Model.FetchProto."
-    quick_n = 170
+    quick_n = 130
     thorough_n = 2000
     coq_chunk = 90
     BUCKETS = [(5, "random"), (2, "prune"), (1, "hash"), (1, "invalid"), (2, "shallow")]
@@ -358,7 +358,7 @@ class Neg(Suite):
     name = "neg"
     go_cmd = "c36"
     coq_imports = "From GoGit Require Import Model.RevList Model.FetchProto."
-    quick_n = 40
+    quick_n = 30
     thorough_n = 400
     coq_chunk = 20
 
@@ -456,7 +456,7 @@ class Shallow(Suite):
     name = "shallow"
     go_cmd = "c36"
     coq_imports = "From GoGit Require Import Model.RevList Model.FetchProto."
-    quick_n = 80
+    quick_n = 60
     thorough_n = 1500
     coq_chunk = 60
 
